@@ -238,15 +238,15 @@ theorem sizeIntB_sizeInt {x : Circuit} (h : sizeIntB x = true) : SizeInt x := by
   exact ⟨_, rfl, h⟩
 
 def execB (x : Circuit) : Bool :=
-  clsB (skeleton x) && clsB (UsedQubits.checkDisjoint x) && sizeIntB x &&
+  clsB (skeleton x) && clsB (tooLarge x.registers) && clsB (UsedQubits.checkDisjoint x) && sizeIntB x &&
   (match skeleton x with
    | .ok (_, tbl) => tbl.all (fun g => clsB (gateToken x.natives g.1 g.2.2))
    | .error _ => true)
 
 theorem execB_execClass {x : Circuit} (h : execB x = true) : ExecClass x := by
   simp only [execB, Bool.and_eq_true] at h
-  obtain ⟨⟨⟨h1, h2⟩, h3⟩, h4⟩ := h
-  refine ⟨clsB_cls h1, clsB_cls h2, sizeIntB_sizeInt h3, ?_⟩
+  obtain ⟨⟨⟨⟨h1, h0⟩, h2⟩, h3⟩, h4⟩ := h
+  refine ⟨clsB_cls h1, clsB_cls h0, clsB_cls h2, sizeIntB_sizeInt h3, ?_⟩
   intro body tbl hs g hg
   rw [hs] at h4
   exact clsB_cls (List.all_eq_true.1 h4 g hg)
